@@ -18,7 +18,7 @@ pub enum Kind {
 }
 pub const KINDS: [Kind; 5] = [Kind::Ctpk, Kind::Bch, Kind::BchNew, Kind::Cgfx, Kind::Tpl];
 
-fn build(k: Kind, texs: &[Tex], rng: &mut Rng, shuffle: bool) -> Built {
+pub fn build(k: Kind, texs: &[Tex], rng: &mut Rng, shuffle: bool) -> Built {
     match k {
         Kind::Ctpk => texcont::ctpk(texs, rng, shuffle),
         Kind::Bch => texcont::bch(texs, rng, shuffle, false),
@@ -37,7 +37,7 @@ fn read(c: &mut Case, k: Kind, bytes: &[u8], what: &str) -> Option<Result<Vec<Te
     })
 }
 
-fn gen_tex(rng: &mut Rng, k: Kind, miri: bool) -> Tex {
+pub fn gen_tex(rng: &mut Rng, k: Kind, miri: bool) -> Tex {
     if k == Kind::Tpl {
         let (w, h) = if miri { (rng.range(1, 9), rng.range(1, 5)) } else { (rng.range(1, 40), rng.range(1, 40)) };
         let aw = (w + 7) / 8 * 8;
